@@ -63,7 +63,7 @@ def _items(ctx, rng):
         yield "v2/lan.send", "cross-" + label, b
     for label, b in v2s[::5]:
         yield "v3hs/lan.authenticate", "cross-" + label, b
-    n = 6000 if quick else 750000
+    n = 6000 if quick else 2250000
     for _ in range(n):
         r = rng.random()
         if r < 0.35:
@@ -76,7 +76,7 @@ def _items(ctx, rng):
             label, b = A.v3_random(rng, SKEY)
             yield rng.choice(V3_DATA_DRIVERS), label, b
     # several adversarial strings in one reply
-    for _ in range(600 if quick else 60000):
+    for _ in range(600 if quick else 180000):
         parts = [A.v3_random(rng, SKEY) for _ in range(rng.randint(2, 4))]
         yield rng.choice(V3_DATA_DRIVERS), "multi:" + "+".join(p[0] for p in parts), b"".join(p[1] for p in parts)
         parts = [A.v2_random(rng) for _ in range(rng.randint(2, 3))]
@@ -111,6 +111,18 @@ def generate(ctx, rng):
             yield ("flood", name, count, "v2"), {"driver": "v2/lan.send", "items": [{"label": name, "bytes": pkt, "then": None, "repeat": count}]}
             yield ("flood", name, count, "v2r"), {"driver": "v2/refresh", "items": [{"label": name, "bytes": pkt, "then": None, "repeat": count}]}
             yield ("flood", name, count, "v3"), {"driver": "v3data/lan.send", "items": [{"label": name, "bytes": A.v3_wrap(SKEY, pkt, 9), "then": None, "repeat": count}]}
+    # the implicit handshake (inside send / refresh / apply) is answered genuinely, and the peer's next bytes arrive before, during or
+    # right after the pause the client makes after a handshake
+    late = [("error-packet", v3.build_error(0)), ("error-packet-ctr", v3.build_error(77)), ("garbage", bytes(range(9, 60))), ("marker-only", b"\x83\x70"),
+            ("v2-packet", _v2.build(A.GOOD_FRAME, 7)), ("enc-garbage", A.v3_wrap(bytes(32), _v2.build(A.GOOD_FRAME, 7), 3)), ("enc-good", A.v3_wrap(SKEY, _v2.build(A.GOOD_FRAME, 7), 1)),
+            ("handshake-reply-again", None), ("short", b"\x83\x70\x00\x08\x20\x0f\x00\x00"), ("zeros", bytes(40))]
+    for driver in ("v3hs/send-implicit-auth", "v3hs/refresh-implicit-auth", "v3hs/apply-implicit-auth"):
+        items = []
+        for label, b in late:
+            for after in (0.0, 0.3, 0.97, 1.0 + 1e-7, 1.2):
+                items.append({"label": f"after-reply/{label}", "bytes": b if b is not None else b"", "then": None, "after": after, "again": b is None})
+        for i in range(0, len(items), BATCH):
+            yield ("late", driver, i), {"driver": driver, "items": items[i:i + BATCH]}
     # nothing but a close / reset in place of the reply, in every phase and at every entry point
     for driver in V2_DRIVERS + V3_PRE_DRIVERS + V3_DATA_DRIVERS:
         yield ("close", driver), {"driver": driver, "items": [{"label": "silent", "bytes": b"", "then": None, "lifetime": lt} for lt in (None, 1, 3, 5)] +
@@ -152,6 +164,10 @@ def run_case(ctx, case):
     def on_handshake(conn, ok, reply, info):
         if cur["unsolicited"] is not None:
             return [(0, cur["unsolicited"]), (0, reply)] + ([(0, cur["then"])] if cur["then"] else [])
+        if cur.get("after") is not None and ok:
+            d, b, again = cur["after"]
+            cur["after"] = None
+            return [(0, reply), (d, reply if again else b)]
         if cur["hs"] is None:
             return None
         return acts(cur["hs"])
@@ -162,7 +178,7 @@ def run_case(ctx, case):
 
     async def one(it):
         adv = bytes(it["bytes"])
-        cur.update(bytes=None, hs=None, unsolicited=None, then=None, repeat=None)
+        cur.update(bytes=None, hs=None, unsolicited=None, then=None, repeat=None, after=None)
         ac = AC(ip=dev.host, port=dev.port, device_id=dev.device_id)
         lan = ac._lan
         if it.get("lifetime"):
@@ -179,7 +195,10 @@ def run_case(ctx, case):
                     c.emit([(0, "fin")])
             for _ in range(3):
                 await asyncio.sleep(0)
-            cur["hs"] = adv
+            if it.get("after") is not None:
+                cur["after"] = (it["after"], adv, bool(it.get("again")))
+            else:
+                cur["hs"] = adv
         elif ep == "unsolicited":
             cur["unsolicited"] = adv
         else:
